@@ -130,3 +130,41 @@ pub fn build_stream(tape: &mut Tape, opts: &StreamOpts) -> Stream {
     }
     s
 }
+
+// ---------------------------------------------------------------------------------------------
+// Archive II volumes and real-time chunks
+
+#[derive(Clone, Debug, Default)]
+pub struct Volume {
+    pub bytes: Vec<u8>,
+    /// (offset of the size prefix, total length including the prefix) per LDM record
+    pub records: Vec<(usize, usize)>,
+    pub messages: usize,
+    pub radials: usize,
+}
+
+/// A well-formed volume: 24-byte header + `n` bzip2-compressed LDM records of message streams.
+pub fn build_volume(tape: &mut Tape, max_records: usize, opts: &StreamOpts) -> Volume {
+    let n = match tape.weighted(&[5, 2, 1]) {
+        0 => 1 + tape.draw(max_records.min(3) as u64) as usize,
+        1 => tape.draw(max_records as u64 + 1) as usize,
+        _ => 0,
+    };
+    let mut v = Volume::default();
+    v.bytes = icd::volume_header(
+        ["2", "3", "6", "7"][tape.draw(4) as usize],
+        1 + tape.draw(999) as u16,
+        1 + tape.draw(30000) as u32,
+        tape.draw(86_400_000) as u32,
+        "KDMX",
+    );
+    for _ in 0..n {
+        let s = build_stream(tape, opts);
+        v.messages += s.msgs.len();
+        v.radials += s.msgs.iter().filter(|m| m.mtype == 31).count();
+        let rec = icd::ldm_record(&s.bytes, tape.draw(4) == 3);
+        v.records.push((v.bytes.len(), rec.len()));
+        v.bytes.extend_from_slice(&rec);
+    }
+    v
+}
